@@ -418,8 +418,13 @@ func (a *EpochBitmapAllocator) MarshalJSON() ([]byte, error) {
 	a.mu.RLock()
 	defer a.mu.RUnlock()
 
-	ones, bits := a.mask.Size()
-	baseNetwork := fmt.Sprintf("%s/%d", a.baseIP.String(), ones+(bits-a.prefixLength))
+	// The document names the pool network itself (base address / mask length);
+	// the unit handed out is recorded separately as prefix_length. (Adding
+	// bits-prefixLength to the mask length only gave the right network for
+	// single addresses; any other pool could not be restored from its own
+	// snapshot.)
+	ones, _ := a.mask.Size()
+	baseNetwork := fmt.Sprintf("%s/%d", a.baseIP.String(), ones)
 
 	state := EpochBitmapState{
 		BaseNetwork:    baseNetwork,
